@@ -33,7 +33,7 @@ Dev(d, mm) ==
     \* observed sign is the one PEP 440 gives with local labels ignored.
     [] d = "KF-pypi-01" -> mm.prop = "C09" /\ mm.why = "ref"
                            /\ (PHasLocal(S2C(mm.a)) \/ PHasLocal(S2C(mm.b)))
-                           /\ PepImplCmp(S2C(mm.a), S2C(mm.b)) = mm.got
+                           /\ mm.model = mm.got
     \* hex: "~> X.Y" with Y > 0 is expanded to >= X.Y.0 and < X.(Y+1).0 instead of < (X+1).0.0 (Elixir's
     \* Version docs); pinned by the repository's tests (~>1.14 must not contain 1.15.7).  Known iff the
     \* observed membership is that of the narrower interval.
@@ -47,7 +47,7 @@ Dev(d, mm) ==
     [] d = "KF-composer-01" -> mm.prop = "C20" /\ mm.eco = "composer" /\ mm.text # "" /\ S2C(mm.text)[1] = 94
                                /\ (IF mm.why = "convex" THEN ComposerUnstable(S2C(mm.b)) /\ ~mm.inb
                                    ELSE mm.why = "equal-versions" /\ ComposerUnstable(S2C(mm.a)) /\ ComposerUnstable(S2C(mm.b)))
-    [] d = "KF-rpm-01" -> mm.prop = "C11" /\ mm.why = "ref" /\ RpmImplCmp(S2C(mm.a), S2C(mm.b)) = mm.got
+    [] d = "KF-rpm-01" -> mm.prop = "C11" /\ mm.why = "ref" /\ mm.model = mm.got
     [] OTHER -> FALSE
 
 \* C01: members an open finding declares irregular (judged separately from the regular ones)
